@@ -170,12 +170,26 @@ def body(ctx):
         lanes.validate(ctx, "T_Cpuid.tla", hist, "c15cache%d" % k, plan_lines=plan)
     ctx.log("events: %d" % len(events))
     lanes.validate(ctx, "T_Cpuid.tla", events, "c15", plan_lines=plan)
+    # non-trivial: a gate decided the outcome - a detection in which some advertised feature is NOT reported available (OS state or a missing
+    # prerequisite), or a dispatch whose first list element was not available (the walk had to skip); distinct = distinct (configuration, outcome)
+    nt = set()
+    for e in events:
+        if e["k"] == "cpu":
+            bits = e["a"][0] | (e["a"][1] << 8) | (e["a"][2] << 16)
+            if bin(bits).count("1") > 0 and sum(e["r"][:23]) < 23 and any(((bits >> f) & 1) and not e["r"][i] for f, i in
+                                                                         ((0, 0), (1, 1), (2, 2), (3, 3), (4, 4), (6, 7), (8, 9), (9, 10), (10, 12), (11, 13), (12, 14), (13, 15), (16, 18), (17, 19), (18, 20))):
+                nt.add((e["op"], tuple(e["a"][:5]), tuple(e["r"][:23])))
+        elif e["k"] == "disp" and e.get("list"):
+            fl = e["r"][17:40]
+            if not fl[e["list"][0] - 1]:
+                nt.add((e["op"], tuple(e["a"][:5]), tuple(e["list"]), e["r"][1]))
+    ctx.cov["distinct_nontrivial"] = len(nt)
     return dict(exhaustive=not ctx.quick,
                 rule="CPUID leaf 1/7.0/7.1/0x80000001 feature bits x OSXSAVE x XCR0 states injected through the XSIMD_VERIF hook into the real detector "
                      "(thorough: all 2^20 x 5 hardware-presentable configurations; quick: every single bit, pair, all-but-one, all-but-two, closed chains and "
                      "random sets x 5 OS states), bits the detector must not read set as noise; %d generated arch_list instantiations dispatched under injected "
                      "availability; cache histories in separate processes; judged by Cpuid.DetectOK / Dispatch.DispatchOutcomeOK in TLC; distinct_nontrivial = "
-                     "distinct events whose result differs from the operands" % len(lists))
+                     "distinct (configuration, outcome) pairs in which a gate decided: an advertised feature not reported available, or a dispatch whose first list element was unavailable" % len(lists))
 
 
 if __name__ == "__main__":
